@@ -14,3 +14,9 @@ package jsonschema
 //@   ensures  unwrapped: !hastype(result, "encoding/json.Number")
 //@   ensures  numbers: hastype(input, "encoding/json.Number") ==> hastype(result, "int64") || hastype(result, "float64") || hastype(result, "string")
 //@   ensures  others: !hastype(input, "encoding/json.Number") ==> result == input
+//
+// unwrapJSONNumbers: the recursive variant for list and object defaults. At the top level it never
+// returns a json.Number either; values that are neither lists, objects nor numbers are returned as is.
+//@ func unwrapJSONNumbers
+//@   property C10
+//@   ensures  unwrapped: !hastype(result, "encoding/json.Number")
